@@ -79,7 +79,7 @@ type SpecFun struct {
 
 var (
 	reFuncHdr   = regexp.MustCompile(`^func\s+(.+?)\s*$`)
-	reExternHdr = regexp.MustCompile(`^extern\s+func\s+([^\s(]+)\s*\(([^)]*)\)\s*(?:\(([^)]*)\))?\s*$`)
+	reExternHdr = regexp.MustCompile(`^extern\s+func\s+([^\s(]+(?:\(\*?\w+\)\.[\w$]+)?)\s*\(([^)]*)\)\s*(?:\(([^)]*)\))?\s*$`)
 	rePred      = regexp.MustCompile(`^pred\s+(\w+)\s*\(([^)]*)\)\s*=\s*(.*)$`)
 	reSpecFun   = regexp.MustCompile(`^spec\s+func\s+(\w+)\s*\(([^)]*)\)\s*(.+)$`)
 	reLabel     = regexp.MustCompile(`^\[([\w.\-]+)\]\s*(.*)$`)
